@@ -664,8 +664,8 @@ func c19RunFlavors(c *lib.Ctx) {
 		}
 		c.Report(sig, w.sweep, map[string]any{"leg": "flavor", "world": w, "sweep": w.sweep, "input": w.input(), "flavor": res.flavor, "load_form": res.obs.Form,
 			"margin": res.obs.Margin, "observed": res.obs.Observed, "expected": res.obs.Expected,
-			"expected_from": "property statement: the flavor rebuilt from its pretty printed load form gives every instance variable the same default; model:lf.flavors",
-			"relies_on":     []string{"SlipVerif.LoadForm.flavor_rebuild_same_defaults", "SlipVerif.LoadForm.session_reload_same_defaults"}})
+			"expected_from": "property statement: the flavor rebuilt from its pretty printed load form is equal to the original: every instance variable has the same default, instances handle the same operations, accept the same init keywords, and the other options of the definition are the same; model:lf.flavors",
+			"relies_on":     []string{"SlipVerif.LoadForm.flavor_rebuild_same_defaults", "SlipVerif.LoadForm.session_reload_same_defaults", "SlipVerif.LoadForm.flavor_options_roundtrip"}})
 	}
 	c.Ev.Coverage["flavor_worlds"] = len(worlds)
 	c.Ev.Coverage["flavor_values"] = nFlav
